@@ -359,6 +359,14 @@ func (its *PushPullHandler) processSubscribeOrCreate(code pushPullCase) errors.O
 	if its.datatypeDoc == nil || (code == caseUsedDUID && (its.gotOption.HasCreateBit() || its.gotOption.HasSubscribeBit())) {
 		return errors.PushPullAbortionOfClient.New(its.ctx.L(), "no datatype: "+its.Key)
 	}
+	if its.datatypeDoc.DUID != its.DUID {
+		// the key names another datatype than the one this request is about: serving it would store
+		// the pushed operations under the request's id while moving the end of the other datatype's log
+		if its.gotOption.HasCreateBit() {
+			return errors.PushPullDuplicateKey.New(its.ctx.L(), its.Key)
+		}
+		return errors.PushPullAbortionOfClient.New(its.ctx.L(), "no datatype: "+its.Key)
+	}
 	return its.initClientInfoWithDatatypeDoc()
 }
 
